@@ -226,6 +226,13 @@ func (ctx *Ctx) immutableAggregate(g *ssa.Global) bool {
 				for _, b := range fn.Blocks {
 					for _, ins := range b.Instrs {
 						switch x := ins.(type) {
+						case *ssa.UnOp:
+							// the slice header read from a slice-typed table shares its backing array
+							if g, ok := x.X.(*ssa.Global); ok && x.Op == token.MUL {
+								if _, isSl := x.Type().Underlying().(*types.Slice); isSl {
+									root[x] = g
+								}
+							}
 						case *ssa.IndexAddr:
 							if g := rootOf(x.X); g != nil {
 								root[x] = g
@@ -249,6 +256,11 @@ func (ctx *Ctx) immutableAggregate(g *ssa.Global) bool {
 						case *ssa.IndexAddr, *ssa.FieldAddr, *ssa.DebugRef:
 						case *ssa.UnOp:
 							if x.Op != token.MUL {
+								bad[g] = true
+							}
+						case *ssa.Call:
+							// len/cap of the table
+							if bi, ok := x.Call.Value.(*ssa.Builtin); !ok || (bi.Name() != "len" && bi.Name() != "cap") {
 								bad[g] = true
 							}
 						case *ssa.Store:
@@ -307,7 +319,7 @@ func (ev *Evaluator) globalLiteral(g *ssa.Global) (Val, bool) {
 		return nil, false
 	}
 	switch pt.Elem().Underlying().(type) {
-	case *types.Array, *types.Struct:
+	case *types.Array, *types.Struct, *types.Slice:
 	default:
 		return nil, false
 	}
@@ -383,6 +395,28 @@ func litVal(info *types.Info, e ast.Expr, t types.Type, depth int) (Val, bool) {
 		return nil, false
 	}
 	switch u := t.Underlying().(type) {
+	case *types.Slice:
+		// a slice literal: an array literal of as many elements as it lists
+		n := 0
+		idx := 0
+		for _, el := range cl.Elts {
+			if kv, ok := el.(*ast.KeyValueExpr); ok {
+				ktv, ok := info.Types[kv.Key]
+				if !ok || ktv.Value == nil {
+					return nil, false
+				}
+				k, exact := constant.Int64Val(ktv.Value)
+				if !exact {
+					return nil, false
+				}
+				idx = int(k)
+			}
+			idx++
+			if idx > n {
+				n = idx
+			}
+		}
+		return litVal(info, e, types.NewArray(u.Elem(), int64(n)), depth)
 	case *types.Array:
 		n := int(u.Len())
 		if n > 4096 {
